@@ -28,14 +28,16 @@ class ServletScn(Scenario):
                'mpservice.streamer._streamer', 'mpservice.mpserver._worker', 'mpservice.mpserver._servlet',
                'mpservice.mpserver._server']
 
-    def __init__(self, stages=(2,), init_fail=True, work_fail=False, pre_fail=False, callers=1, capacity=2, cycles=1, batch_size=0, validate_all=False):
+    def __init__(self, stages=(2,), init_fail=True, work_fail=False, pre_fail=False, callers=1, capacity=2, cycles=1, batch_size=0, validate_all=False, batch_stage=0):
         """stages: number of worker threads of each ThreadServlet in a SequentialServlet (one stage: plain ThreadServlet)."""
         self.stages, self.init_fail, self.work_fail, self.pre_fail = tuple(stages), init_fail, work_fail, pre_fail
         self.callers, self.capacity, self.cycles = callers, capacity, cycles
         self.batch_size = batch_size
+        self.batch_stage = batch_stage  # which stage of the sequence batches (its predecessors' failures reach its collector)
         self.validate_all = validate_all  # every later stage has a (never failing) validating preprocess
         self.params = dict(stages=list(stages), init_fail=init_fail, work_fail=work_fail, pre_fail=pre_fail,
-                           callers=callers, capacity=capacity, cycles=cycles, batch_size=batch_size, validate_all=validate_all)
+                           callers=callers, capacity=capacity, cycles=cycles, batch_size=batch_size, validate_all=validate_all,
+                           batch_stage=batch_stage)
         self.caps = {'queue': callers + sum(stages) + 3, 'deque': callers + 3}
 
     def extra_patches(self):
@@ -58,11 +60,23 @@ class ServletScn(Scenario):
 
         batchof = SDict('batchof') if self.batch_size else None
         B = self.batch_size
+        BS = self.batch_stage
+
+        def root_id(e):
+            while e[0] == 'R':
+                e = e[2]
+            return e[1]
+
+        def genuine(e, stage):
+            """Is `e` a regular input of `stage` (the request itself, or the previous stage's result)?"""
+            if not (isinstance(e, tuple) and e):
+                return False
+            return (len(e) == 2 and e[0] == 'x') if stage == 0 else (len(e) == 3 and e[0] == 'R' and e[1] == stage - 1)
 
         def make_worker(stage):
             class W(Worker):
                 def __init__(self, **kw):
-                    super().__init__(batch_size=B if stage == 0 else 0, **kw)
+                    super().__init__(batch_size=B if stage == BS else 0, **kw)
                     if scn.init_fail and choose(f'initfail{stage}_{self.worker_index}', 2) == 1:
                         raise InitErr('init', stage, self.worker_index)
 
@@ -80,18 +94,18 @@ class ServletScn(Scenario):
                         return x
 
                 def call(self, x):
-                    if B and stage == 0:
+                    if B and stage == BS:
                         xs = x
                         # C09: a batch is a non-empty list of at most B genuine, accepted inputs
                         if not isinstance(xs, list) or not (1 <= len(xs) <= B):
                             raise AssertionError(f'batch-malformed: {xs!r}')
                         ids = []
                         for e in xs:
-                            if not (isinstance(e, tuple) and len(e) == 2 and e[0] == 'x'):
+                            if not genuine(e, stage):
                                 raise AssertionError(f'batch-member-not-an-input: {e!r}')
-                            if scn.pre_fail and choose(f'prefail{e[1]}', 2) == 1:
+                            if scn.pre_fail and choose(f'prefail{root_id(e)}', 2) == 1:
                                 raise AssertionError(f'batch-contains-rejected-element: {e!r}')
-                            ids.append(e[1])
+                            ids.append(root_id(e))
                         for j in ids:
                             batchof[j] = tuple(sorted(ids))
                         if scn.work_fail and any(choose(f'wfail{stage}_{j}', 2) == 1 for j in ids):
@@ -138,17 +152,17 @@ class ServletScn(Scenario):
             if scn.pre_fail and choose(f'prefail{i}', 2) == 1:
                 return ('E', PreErr, ('pre', i))
             y = x
-            if B:
-                members = batchof.get(i, None)
-                if members is None or i not in members:
-                    return ('NOBATCH',)
-                # exactly the members of a failing batch fail
-                if scn.work_fail and any(choose(f'wfail0_{j}', 2) == 1 for j in members):
-                    return ('E', WorkErr, ('work', 0, 'batch'))
-                y = ('R', 0, y)
-            for s in range(1 if B else 0, len(scn.stages)):
-                if scn.work_fail and choose(f'wfail{s}_{i}', 2) == 1:
-                    return ('E', WorkErr, ('work', s, i))
+            for s in range(len(scn.stages)):
+                if B and s == BS:
+                    members = batchof.get(i, None)
+                    if members is None or i not in members:
+                        return ('NOBATCH',)
+                    # exactly the members of a failing batch fail
+                    if scn.work_fail and any(choose(f'wfail{s}_{j}', 2) == 1 for j in members):
+                        return ('E', WorkErr, ('work', s, 'batch'))
+                else:
+                    if scn.work_fail and choose(f'wfail{s}_{i}', 2) == 1:
+                        return ('E', WorkErr, ('work', s, i))
                 y = ('R', s, y)
             return ('V', y)
 
